@@ -54,6 +54,20 @@ Section Loop.
       end
     end.
 
+  (* the same with the chunk length computed by a left fold: the extracted `length` is not tail
+     recursive, which matters for the megabyte chunks of the RPC correspondence *)
+  Definition length_tr (l : list N) : nat := fold_left (fun n _ => Datatypes.S n) l O.
+  Definition feed_chunk_tr (s : S) (chunk : list N) : run S := drain (Datatypes.S (length_tr chunk)) s chunk.
+  Fixpoint feed_trace_tr (s : S) (chunks : list (list N)) : list (run S) :=
+    match chunks with
+    | [] => []
+    | c :: cs =>
+      match feed_chunk_tr s c with
+      | Done s1 o1 => Done s1 o1 :: feed_trace_tr s1 cs
+      | r => [r]
+      end
+    end.
+
   (* the same, keeping the state and the deliveries after every chunk (for the correspondence) *)
   Fixpoint feed_trace (s : S) (chunks : list (list N)) : list (run S) :=
     match chunks with
@@ -66,6 +80,7 @@ Section Loop.
     end.
 End Loop.
 Arguments drain {S}. Arguments feed_chunk {S}. Arguments feed {S}. Arguments feed_trace {S}.
+Arguments feed_trace_tr {S}.
 
 (* ------------------------------------------------------------------ ConnectedDescriptor::Receive *)
 (* One read() result: `RBytes n` = the kernel has n bytes for this call (0 = end of file), the
@@ -615,17 +630,22 @@ Definition rpc_header (h : list N) : N :=
 Definition rpc_version (h : N) : N := N.shiftr (N.land h RPC_VERSION_MASK) 28.
 Definition rpc_size (h : N) : N := N.land h RPC_SIZE_MASK.
 
+(* the first n elements of l, reversed, in front of acc; the rest of l; how many of the n were
+   missing (tail recursive after extraction: frames of up to 1 MB are fed in one chunk) *)
+Fixpoint take_rev (l : list N) (n : N) (acc : list N) : list N * list N * N :=
+  match l with
+  | [] => (acc, [], n)
+  | x :: r => if n =? 0 then (acc, l, 0) else take_rev r (N.pred n) (x :: acc)
+  end.
+
 Section Rpc.
   Variable ok : list N -> bool.
 
   (* Receive(m_buffer + m_current_size, m_expected_size - m_current_size) and the completion test *)
   Definition p_bodyst (s : pstate) (av : list N) : option (pstate * list N * list msg) :=
     let want := usub32 (p_exp s) (p_cur s) in
-    let k := N.min want (len av) in
-    let got := take k av in
-    let r := drop k av in
-    let cur := p_cur s + k in
-    let rb := rev_append got (p_rbody s) in
+    let '(rb, r, miss) := take_rev av want (p_rbody s) in
+    let cur := p_cur s + (want - miss) in
     if cur =? p_exp s then
       let body := rev_append rb [] in
       if ok body
@@ -640,10 +660,9 @@ Section Rpc.
     if p_closed s then Some (s, [], [])
     else if p_exp s =? 0 then
       let want := 4 - len (p_hdr s) in
-      let k := N.min want (len av) in
-      let h := p_hdr s ++ take k av in
-      let r := drop k av in
-      if len h <? 4
+      let '(rh, r, miss) := take_rev av want [] in
+      let h := p_hdr s ++ rev_append rh [] in
+      if negb (miss =? 0)
       then Some ({| p_hdr := h; p_exp := 0; p_rbody := p_rbody s; p_cur := p_cur s; p_closed := false |}, r, [])
       else
         let hd := rpc_header h in
@@ -657,26 +676,31 @@ Section Rpc.
   (* Reference framer from the wire format: frames of a 4-byte little-endian header (version in the
      top 4 bits, body size in the low 28) and a body.  Size 0: the frame is empty and skipped; version
      other than 1, size above 1 MB or an unparsable body: the channel is closed, nothing after it is
-     delivered.  Returns the delivered messages and whether the channel was closed. *)
+     delivered; every other frame is delivered, whatever came before it on the channel.  Returns the
+     delivered messages and whether the channel was closed. *)
   Fixpoint ref_rpc_f (fuel : nat) (s : list N) : list msg * bool :=
     match fuel with
     | O => ([], false)
     | Datatypes.S f =>
-      if len s <? 4 then ([], false)
-      else
-        let hd := rpc_header s in
+      match s with
+      | b0 :: b1 :: b2 :: b3 :: r =>
+        let hd := rpc_header [b0; b1; b2; b3] in
         let n := hd mod 268435456 in
         let v := hd / 268435456 in
-        let r := drop 4 s in
         if n =? 0 then ref_rpc_f f r
         else if negb (v =? 1) then ([], true)
         else if 1048576 <? n then ([], true)
-        else if len r <? n then ([], false)
         else
-          let body := take n r in
-          if ok body
-          then let (ms, c) := ref_rpc_f f (drop n r) in ((rpc_label body, body) :: ms, c)
-          else ([], true)
+          let '(rb, rest, miss) := take_rev r n [] in
+          if negb (miss =? 0) then ([], false)
+          else
+            let body := rev_append rb [] in
+            if ok body
+            then let (ms, c) := ref_rpc_f f rest in ((rpc_label body, body) :: ms, c)
+            else ([], true)
+      | _ => ([], false)
+      end
     end.
-  Definition ref_rpc (s : list N) : list msg * bool := ref_rpc_f (Datatypes.S (length s)) s.
+  (* every frame consumes at least four bytes *)
+  Definition ref_rpc (s : list N) : list msg * bool := ref_rpc_f (Datatypes.S (length_tr s)) s.
 End Rpc.
